@@ -55,8 +55,14 @@ func (cl Serializer) DecodeDnsResponse(msg *dns.Msg) (Response, error) {
 // DecodeDnsResponse will take a DNS message and decode it into one of the DNS response object
 func (cl Serializer) DecodeDnsResponseWithParams(msg *dns.Msg, downstream enc.Encoder) (Response, error) {
 	data := util.UnwrapDnsResponse(msg, cl.Domain)
+	if len(data) == 0 {
+		return nil, errors.Errorf("Invalid response from server. No data in the answer.")
+	}
 	for _, c := range Commands {
 		if c.IsOfType(data) {
+			if c.NewResponse == nil {
+				return nil, errors.Errorf("Invalid response from server. Command type %v is not implemented", c)
+			}
 			req := c.NewResponse()
 			err := req.Decode(downstream, data)
 			return req, err
@@ -150,8 +156,14 @@ func (cl Serializer) EncodeDnsRequestWithParams(req Request, qt dnsmessage.Type,
 
 // DecodeDnsRequest will take a DNS message and decode it into one of the DNS requests objects
 func (cl Serializer) DecodeDnsRequest(request []byte) (Request, error) {
+	if len(request) == 0 {
+		return nil, errors.Errorf("Invalid request. Empty name.")
+	}
 	for _, c := range Commands {
 		if c.IsOfType(request) {
+			if c.NewRequest == nil {
+				return nil, errors.Errorf("Invalid request. Command type %v is not implemented", c)
+			}
 			req := c.NewRequest()
 			err := req.Decode(cl.Upstream.Encoder, request)
 			if err != nil {
